@@ -271,6 +271,14 @@ def rule_undiscounted(ctx: Ctx, typer: Typer):
                   "-inf is not assigned under the mask `accessible[:, <negative recurrent states>].any(-1)`: it must mark states from which a negative recurrent state is accessible")
         ok = ast.unparse(st[0].value) == "float('-inf')"
         ctx.check(ok, "REC-3", f, st[0], "the assigned value is -inf", "", f"assigned value is {ast.unparse(st[0].value)}")
+        # (written after seed C02-c) every later use of the state values sees the -inf entries: the store dominates each statement that reads them
+        sn = cfg.node_for(st[0])
+        readers = [x for x in fn_body_nodes(f) if isinstance(x, ast.stmt) and x is not st[0] and not (sv and x is sv[0][0])
+                   and any(isinstance(n_, ast.Name) and n_.id == svn and isinstance(n_.ctx, ast.Load) for n_ in ast.walk(x))
+                   and not isinstance(x, (ast.For, ast.While, ast.If, ast.With, ast.Try, ast.FunctionDef))]
+        late = [x for x in readers if not cfg.dominates(sn, cfg.node_for(x))]
+        ctx.check(not late and bool(readers), "REC-3", f, late[0] if late else st[0], "the -inf entries are in place before the state values are used (action values, initial value, result)", "",
+                  f"`{norm(late[0], 70) if late else ''}` reads the state values before the -inf entries are written: quantities derived there are computed from the finite stale values")
         r2 = S.solve(["negrec = recurrent & (rewards < 0)", "ANY[:, negrec]"], env0) if have else None
         ctx.check(r2 is not None, "REC-3", f, r2[1][0] if r2 else f.node, "negative recurrent = recurrent and paying negative reward", "", "negative recurrent states are not recurrent & (state_rewards < 0)")
         rs = S.find("recurrent = ~transient & ~absorbing", {k: v for k, v in env0.items() if k in ("recurrent", "absorbing")}) if have else []
